@@ -100,9 +100,9 @@ func runFR(c *Ctx, s *Sink) {
 						var b *ast.BinaryExpr
 						ast.Inspect(r, func(m ast.Node) bool {
 							if be, ok := m.(*ast.BinaryExpr); ok && be.Op == token.ADD && b == nil {
-								if o := rootObj(info, be.X); o == from || o == to {
+								if o := frOperand(info, be.X); o == from || o == to {
 									b = be
-								} else if o := rootObj(info, be.Y); o == from || o == to {
+								} else if o := frOperand(info, be.Y); o == from || o == to {
 									b = be
 								}
 							}
@@ -111,7 +111,7 @@ func runFR(c *Ctx, s *Sink) {
 						if b == nil {
 							continue
 						}
-						x, y := rootObj(info, b.X), rootObj(info, b.Y)
+						x, y := frOperand(info, b.X), frOperand(info, b.Y)
 						var off, base types.Object
 						switch {
 						case y == from || y == to:
@@ -161,10 +161,16 @@ func runFR(c *Ctx, s *Sink) {
 					if !ok || len(a2.Rhs) != 1 {
 						continue
 					}
-					if cl, isC := ast.Unparen(a2.Rhs[0]).(*ast.CallExpr); isC {
-						if id, isI := cl.Fun.(*ast.Ident); isI && id.Name == "max" && mentionsVar(info, cl, from) {
-							outClamped = true
+					// a clamp max(…from…, c) anywhere in the right-hand side
+					ast.Inspect(a2.Rhs[0], func(m ast.Node) bool {
+						if cl, isC := m.(*ast.CallExpr); isC {
+							if id, isI := cl.Fun.(*ast.Ident); isI && id.Name == "max" && mentionsVar(info, cl, from) {
+								outClamped = true
+							}
 						}
+						return true
+					})
+					if cl, isC := ast.Unparen(a2.Rhs[0]).(*ast.CallExpr); isC {
 						if id, isI := cl.Fun.(*ast.Ident); isI && id.Name == "max" && len(cl.Args) == 2 {
 							// x = max(x, 0) on the translated start
 							for _, prev := range list[i+1:] {
@@ -194,4 +200,19 @@ func runFR(c *Ctx, s *Sink) {
 		}
 		visitList(fd.Body.List)
 	})
+}
+
+// frOperand: the variable an operand stands for, seen through a clamp max(v, c) / min(v, c) with a constant.
+func frOperand(info *types.Info, e ast.Expr) types.Object {
+	e = ast.Unparen(e)
+	if call, ok := e.(*ast.CallExpr); ok && len(call.Args) == 2 {
+		if id, ok := call.Fun.(*ast.Ident); ok && (id.Name == "max" || id.Name == "min") {
+			for i, a := range call.Args {
+				if _, isConst := constInt(info, call.Args[1-i]); isConst {
+					return rootObj(info, a)
+				}
+			}
+		}
+	}
+	return rootObj(info, e)
 }
